@@ -323,7 +323,7 @@ pub fn guided_lt_msg(rng: &mut impl Rng, d: &Driver) -> MsgSpec {
         hostile: Value::Null,
     };
     let challenge = |rng: &mut dyn FnMut(u32) -> u32| -> Value {
-        let algs = ["none", "none", "md5", "sha", "md5_sha", "sha_md5", "unsup_md5"][rng(7) as usize];
+        let algs = ["none", "none", "md5", "sha", "md5_sha", "sha_md5", "unsup_md5", "sha_p", "md5_sha_p"][rng(9) as usize];
         let cookie = algs != "none" || rng(2) == 0;
         json!({"realm": if rng(12) == 0 { "other" } else { "ok" },
                "nonce": if cookie { "fresh_cookie" } else { "fresh" },
@@ -351,7 +351,17 @@ pub fn guided_lt_msg(rng: &mut impl Rng, d: &Driver) -> MsgSpec {
             77..=82 => mk(2, 0, if good == "sha" { "mi" } else { "sha" }, json!({})),
             83..=88 => mk(2, 0, if good == "sha" { "sha_bad" } else { "mi_bad" }, json!({})),
             89..=93 => mk(2, 0, if good == "sha" { "sha_otherpw" } else { "mi_otherpw" }, json!({})),
-            94..=95 => mk(2, 0, "both", json!({})),
+            94 => mk(2, 0, "both", json!({})),
+            // stale-nonce / challenge replies whose only integrity attribute is of the kind NOT in force,
+            // or keyed with another password
+            95 => {
+                let other = match (good, r(2)) { ("sha", 0) => "mi", ("sha", _) => "sha_otherpw", (_, 0) => "sha", _ => "mi_otherpw" };
+                if r(3) == 0 {
+                    mk(3, 401, other, challenge(&mut r))
+                } else {
+                    mk(3, 438, other, json!({"nonce": if algs_present {"fresh_cookie"} else {"fresh"}, "pa": algs_present, "ua": false, "realm":"ok"}))
+                }
+            }
             // ill-formed challenges that nevertheless carry an integrity attribute (valid or not)
             96 => mk(3, 438, if r(2) == 0 { good } else if good == "sha" { "sha_bad" } else { "mi_bad" },
                      json!({"nonce":"absent","realm":"ok"})),
